@@ -124,7 +124,12 @@ def run(ctx):
             for cmd in (['free', drive], ['space', drive]):
                 cases.append(vlib.Case('d%d' % k, {name: img}, ['--file', '@' + name] + cmd,
                                        meta={'cmd': cmd[0], 'd': d, 'vol': (label, origin, vlen, cats), 'kind': kind, 'k': k}))
-        cases.append(vlib.Case('d%d' % k, {name: img}, ['--file', '@' + name, 'sector-map', '0'], meta={'cmd': 'sector-map', 'd': d, 'kind': kind, 'k': k, 'img': img}))
+        # several volumes (or the same one twice) named in one `space` run: each is reported on its own
+        order = list(vols) if len(vols) > 1 else [vols[0], vols[0]]
+        for seq in ([order[0], order[-1]], [order[-1], order[0]], order[:3][::-1]) if (len(vols) > 1 or k % 4 == 0) else ():
+            cases.append(vlib.Case('d%d' % k, {name: img}, ['--file', '@' + name, 'space'] + ['0%s' % (v_[0] or '') for v_ in seq],
+                                   meta={'cmd': 'space', 'multi': seq, 'd': d, 'vol': seq[0], 'kind': kind, 'k': k}))
+        cases.append(vlib.Case('d%d' % k, {name: img}, ['--file', '@' + name, 'sector-map', '0'], meta={'cmd': 'sector-ma', 'd': d, 'kind': kind, 'k': k, 'img': img}))
         cases.append(vlib.Case('d%d' % k, {name: img}, ['--file', '@' + name, 'extract-unused', '@out'], dest='out', meta={'cmd': 'extract-unused', 'd': d, 'kind': kind, 'k': k, 'img': img}))
     vlib.run_cases(cases, impl['dfs'])
     smaps = {}
@@ -134,7 +139,7 @@ def run(ctx):
         common.compare_model(ctx, c, 'e2e-' + m['cmd'])
         ctx.oracle_cases += 1
         nfiles = len(d.all_files())
-        ctx.case((m['k'], m['cmd'], str(m.get('vol', ('',))[0])), nfiles > 0, sample={'argv': [a.decode('latin-1') for a in c.real_argv[2:]], 'layout': m['kind'], 'files': nfiles})
+        ctx.case((m['k'], m['cmd'], str(m.get('vol', ('',))[0]), tuple(c.real_argv[2:])), nfiles > 0, sample={'argv': [a.decode('latin-1') for a in c.real_argv[2:]], 'layout': m['kind'], 'files': nfiles})
         i = c.impl
         rp = None
         keysfx = ':zero-length' if any(f.length == 0 for (_, _, _, f) in d.all_files()) else ''
@@ -157,6 +162,19 @@ def run(ctx):
                 if d.variant == 'wdfs' and used == catsec and got['Used'][1] == 2:
                     key = 'free-watford-catalogue-sectors'
                 ctx.violation(key, 'free reports %s, the catalogue implies %s (%s, %d files, total %d sectors)' % (got, want, d.variant, nf, total), common.replay_of(c))
+        elif m['cmd'] == 'space' and m.get('multi'):
+            blocks = re.findall(r'Gap sizes on disc [^\n]*:\n([0-9A-F ]*)\n\nTotal space free = ([0-9A-F]+) sectors', out)
+            if i['exit'] != 0 or len(blocks) != len(m['multi']):
+                ctx.violation('space-failed' + keysfx, 'space with %d drive arguments failed or printed %d reports (exit %d): %s' % (len(m['multi']), len(blocks), i['exit'], i['err'][-120:].decode('latin-1')), common.replay_of(c))
+                continue
+            for (label, origin, vlen, cats), (gtxt, ttxt) in zip(m['multi'], blocks):
+                catsec, total, owner, used, nf = expected(d, label, origin, vlen, cats)
+                want_gaps = sorted(b - a for a, b in runs_of_free(owner, total, 0))
+                gaps = sorted(int(x, 16) for x in gtxt.split())
+                if gaps != want_gaps or int(ttxt, 16) != sum(want_gaps):
+                    ctx.violation('space-gaps-multi' + keysfx, '`space %s`: volume %s is reported with gaps %s total %d; its unallocated runs are %s total %d (%s)' % (
+                        ' '.join('0%s' % (v_[0] or '') for v_ in m['multi']), label or '0', gaps[:8], int(ttxt, 16), want_gaps[:8], sum(want_gaps), d.variant), common.replay_of(c))
+                    break
         elif m['cmd'] == 'space':
             label, origin, vlen, cats = m['vol']
             catsec, total, owner, used, nf = expected(d, label, origin, vlen, cats)
